@@ -100,6 +100,8 @@ def run(ctx: Ctx):
     corpus = load_corpus("C04")
     probs = [c["problem"] for c in corpus if c.get("kind") == "service"]
     probs += [c03.gen_util_problem(ctx.rng) for _ in range(ctx.n(300, 6000))]
+    probs += [c03.gen_double_pinch(ctx.rng) for _ in range(ctx.n(40, 800))]      # a pocket between two pinches
+    probs += [c03.gen_top_cold_dt(ctx.rng) for _ in range(ctx.n(20, 400))]
     for pr in probs:
         try:
             out, master, zones = c03.observe(pr)
